@@ -667,6 +667,15 @@ class Models:
             return outs
 
         # ---------------- control
+        @reg("std::intrinsics::discriminant_value", "core::intrinsics::discriminant_value", "std::mem::discriminant")
+        def discriminant_value(c):
+            v = c.argv(0)
+            if v[0] != "r":
+                return None
+            d = c.eng.read(c.st, v[1], v[2] + ("$discr",))
+            c.set_dest({(): d} if c.base.endswith("discriminant_value") else {(): T(("app", "mem::discriminant", (d,))), (0,): d})
+            return [c.st]
+
         @reg("std::process::exit", "std::process::abort")
         def exit_(c):
             return []
